@@ -577,6 +577,14 @@ func runCase(ctx *runner.Ctx, k cs) {
 			return
 		}
 	}
+	if f.Kind == "resp" && f.Arg >= 1 && (d.D0 != 0 || d.D1 != 0) {
+		// x, t0 or t1 of the challenge response was altered and nothing else: the sender's equation q = t ^ x*Delta is
+		// an equality of 256-bit values of which exactly one side changed (x*Delta changes with x because Delta != 0 and
+		// carry-less multiplication has no zero divisors), so it cannot hold; accepting means that part of the response
+		// is not compared (seed C15-10). An altered seed2 (Arg 0) is left to the correlation oracle.
+		ctx.Violate("silent-accept.resp-not-compared", fmt.Sprintf("sender accepted an altered challenge response (label %d of seed2/x/t0/t1, bit %d): the check equation cannot hold, that part of the response is not compared (n=%d)", f.Arg, f.Col, k.N), k)
+		return
+	}
 	if f.Kind == "honest" {
 		ctx.Outcome("honest-ok")
 	} else {
